@@ -423,6 +423,7 @@ void oracle_regions(World&);                    // C12
 void oracle_accessors(World&, bool all);        // C14
 void oracle_derived(World&);                    // C15
 void oracle_substitutions(World&);              // C16
+void oracle_constants(World&);                  // C13
 
 struct Snapshot {
    std::vector<std::pair<Entity, Obs>> items;
